@@ -106,6 +106,20 @@ Proof.
   destruct (Z.eqb_spec r (-1)); split; intro; auto; try discriminate; contradiction.
 Qed.
 
+(** VSsetfields defines the record layout only for a vdata attached for writing that has neither records nor fields *)
+Lemma vssetfields_define_spec : forall acc nv wn,
+  vssetfields_defines_layout acc nv wn = 1 <-> (acc = CH_W /\ nv = 0 /\ wn = 0).
+Proof.
+  intros. unfold vssetfields_defines_layout, CH_W.
+  destruct (Z.eqb_spec acc 119); destruct (Z.eqb_spec nv 0); destruct (Z.eqb_spec wn 0); simpl; split; intros;
+    try discriminate; auto; try (destruct H as (? & ? & ?); contradiction).
+Qed.
+Lemma vssetfields_define_needs_w : forall acc nv wn, acc <> CH_W -> vssetfields_defines_layout acc nv wn = 0.
+Proof.
+  intros acc nv wn H. unfold vssetfields_defines_layout, CH_W in *.
+  destruct (Z.eqb_spec acc 119); [contradiction|]. reflexivity.
+Qed.
+
 (** * The read-only invariant *)
 
 Definition ro_inv (f : frec) : Prop :=
@@ -373,6 +387,13 @@ Proof.
     unfold vswrite in H. destruct (find_vrec f key) as [v|] eqn:E; [| inversion H; subst; t3].
     destruct (v_isvs v); simpl in H; [| inversion H; subst; t3].
     pose proof (vrec_ro f Hinv _ _ E) as Hv. rewrite Hv in H. simpl in H. inversion H; subst. t3.
+  - (* OVSdefine *)
+    unfold vsdefine in H. destruct (find_vrec f key) as [v|] eqn:E; [| inversion H; subst; t3].
+    destruct (v_isvs v); simpl in H; [| inversion H; subst; t3].
+    pose proof (vrec_ro f Hinv _ _ E) as Hv. rewrite Hv in H.
+    rewrite (vssetfields_define_needs_w CH_R nv wn) in H by (unfold CH_R, CH_W; discriminate). simpl in H.
+    destruct (0 <? nv) eqn:N; inversion H; subst; t3.
+    simpl. intro M. apply Z.leb_le in M. apply Z.ltb_lt in N. lia.
   - (* OVdetach *)
     unfold vdetach in H. destruct (find_vrec f key) as [v|] eqn:E; [| inversion H; subst; t3].
     pose proof (vrec_ro f Hinv _ _ E) as Hv. rewrite Hv in H. simpl in H. inversion H; subst. t3.
@@ -585,7 +606,79 @@ Lemma guards_dominate_full :
   hwrite_guard_depth = 0 /\
   hwrite_effects_before_guard = 0 /\
   htrunc_guard_depth = 0 /\
-  htrunc_effects_before_guard = 0.
+  htrunc_effects_before_guard = 0 /\
+  sdcreate_success_exits_before_guard = 0 /\
+  sdcreate_stores_before_guard = 0 /\
+  sdsetdimname_success_exits_before_guard = 0 /\
+  sdsetdimname_stores_before_guard = 0 /\
+  sdsetrange_success_exits_before_guard = 0 /\
+  sdsetrange_stores_before_guard = 0 /\
+  sdsetattr_success_exits_before_guard = 0 /\
+  sdsetattr_stores_before_guard = 0 /\
+  sdsetdatastrs_success_exits_before_guard = 0 /\
+  sdsetdatastrs_stores_before_guard = 0 /\
+  sdsetcal_success_exits_before_guard = 0 /\
+  sdsetcal_stores_before_guard = 0 /\
+  sdsetfillvalue_success_exits_before_guard = 0 /\
+  sdsetfillvalue_stores_before_guard = 0 /\
+  sdsetdimstrs_success_exits_before_guard = 0 /\
+  sdsetdimstrs_stores_before_guard = 0 /\
+  sdsetdimscale_success_exits_before_guard = 0 /\
+  sdsetdimscale_stores_before_guard = 0 /\
+  sdsetdimval_comp_success_exits_before_guard = 0 /\
+  sdsetdimval_comp_stores_before_guard = 0 /\
+  sdwritedata_success_exits_before_guard = 0 /\
+  sdwritedata_stores_before_guard = 0 /\
+  sdsetexternalfile_success_exits_before_guard = 1 /\
+  sdsetexternalfile_stores_before_guard = 0 /\
+  sdsetcompress_success_exits_before_guard = 0 /\
+  sdsetcompress_stores_before_guard = 0 /\
+  sdsetchunk_success_exits_before_guard = 0 /\
+  sdsetchunk_stores_before_guard = 0 /\
+  sdsetnbitdataset_success_exits_before_guard = 0 /\
+  sdsetnbitdataset_stores_before_guard = 0 /\
+  sdwritechunk_success_exits_before_guard = 0 /\
+  sdwritechunk_stores_before_guard = 0 /\
+  grsetattr_success_exits_before_guard = 0 /\
+  grsetattr_stores_before_guard = 0 /\
+  hstartaccess_success_exits_before_guard = 0 /\
+  hstartaccess_stores_before_guard = 0 /\
+  hsetlength_success_exits_before_guard = 0 /\
+  hsetlength_stores_before_guard = 0 /\
+  hlcreate_success_exits_before_guard = 0 /\
+  hlcreate_stores_before_guard = 0 /\
+  hlconvert_success_exits_before_guard = 0 /\
+  hlconvert_stores_before_guard = 0 /\
+  hxcreate_success_exits_before_guard = 0 /\
+  hxcreate_stores_before_guard = 0 /\
+  hccreate_success_exits_before_guard = 0 /\
+  hccreate_stores_before_guard = 0 /\
+  hmccreate_success_exits_before_guard = 0 /\
+  hmccreate_stores_before_guard = 0 /\
+  hmcwritechunk_success_exits_before_guard = 0 /\
+  hmcwritechunk_stores_before_guard = 0 /\
+  hdupdd_success_exits_before_guard = 0 /\
+  hdupdd_stores_before_guard = 0 /\
+  hdeldd_success_exits_before_guard = 0 /\
+  hdeldd_stores_before_guard = 0 /\
+  hdreuse_tagref_success_exits_before_guard = 0 /\
+  hdreuse_tagref_stores_before_guard = 0 /\
+  vattach_success_exits_before_guard = 0 /\
+  vattach_stores_before_guard = 0 /\
+  vdelete_success_exits_before_guard = 0 /\
+  vdelete_stores_before_guard = 0 /\
+  vsdelete_success_exits_before_guard = 0 /\
+  vsdelete_stores_before_guard = 0 /\
+  vaddtagref_success_exits_before_guard = 0 /\
+  vaddtagref_stores_before_guard = 0 /\
+  vdeletetagref_success_exits_before_guard = 0 /\
+  vdeletetagref_stores_before_guard = 0 /\
+  vswrite_success_exits_before_guard = 0 /\
+  vswrite_stores_before_guard = 0 /\
+  hwrite_success_exits_before_guard = 0 /\
+  hwrite_stores_before_guard = 0 /\
+  htrunc_success_exits_before_guard = 0 /\
+  htrunc_stores_before_guard = 0.
 Proof. repeat split; reflexivity. Qed.
 
 (** Hopen of an already open path: the write bit is given to the shared record after the reopen has been attempted
